@@ -33,7 +33,7 @@ func tText(c context, s []byte) (context, int) {
 	if mixedSpecial(c.element) && bytes.IndexByte(s, '<') >= 0 {
 		return context{state: stateError, err: errMixedSpecial(c.element)}, len(s)
 	}
-	if c.element.split && bytes.IndexByte(s, '<') >= 0 {
+	if c.element.split && couldBeSpecial(c.element) && bytes.IndexByte(s, '<') >= 0 {
 		return context{state: stateError, err: errSplitName(c.element)}, len(s)
 	}
 	k := 0
@@ -191,6 +191,19 @@ func errMixedSpecial(e element) *Error {
 	return errorf(ErrBranchEnd, nil, 0, "markup in the content of an element that conditional branches named differently (%q), one of them a script, style, textarea or title element", e.names)
 }
 
+// couldBeSpecial reports whether the element, whose name is known by a prefix only, may
+// be a special element: `<h{{if .Big}}1{{else}}2{{end}}>` cannot, `<s{{if .C}}cript{{end}}>` can.
+func couldBeSpecial(e element) bool {
+	for _, name := range append([]string{e.name}, e.names...) {
+		for special := range specialElements {
+			if strings.HasPrefix(special, name) {
+				return true
+			}
+		}
+	}
+	return false
+}
+
 // errSplitName is the error for markup in the content of an element whose name is not
 // known because a template node splits it: like for mixedSpecial, only content without
 // markup has a known context.
@@ -309,7 +322,7 @@ func tSpecialTagEnd(c context, s []byte) (context, int) {
 	if mixedSpecial(c.element) && bytes.IndexByte(s, '<') >= 0 {
 		return context{state: stateError, err: errMixedSpecial(c.element)}, len(s)
 	}
-	if c.element.split && bytes.IndexByte(s, '<') >= 0 {
+	if c.element.split && couldBeSpecial(c.element) && bytes.IndexByte(s, '<') >= 0 {
 		return context{state: stateError, err: errSplitName(c.element)}, len(s)
 	}
 	if specialElements[c.element.name] {
